@@ -34,6 +34,7 @@ def is_stream_method(fn):
 
 class IOHooks(Hooks):
     """inline everything that carries a stream; decide default-argument tests"""
+    unroll_literal = 32          # table-driven sections (`for (i = 0; i < 3; ++i) props->set(names[i], values[i])`) become straight-line code
 
     def __init__(self, deep=False):
         self.deep = deep
